@@ -42,6 +42,9 @@ class DeleteContext():
             subcont = get_recursively(context, subcont_key)
         except LenaKeyError:
             return value
+        if not isinstance(subcont, dict):
+            # the key leads through a value that is not a dictionary
+            return value
 
         try:
             del subcont[key]
